@@ -191,3 +191,41 @@ func VerifC02_TerminatesDuringRevalidation() {
 		zz.Reach("refused after terminating during re-validation")
 	}
 }
+
+// VerifC02_TwoStimuli (thorough): two consecutive arbitrary transport callbacks / API calls on a
+// terminated channel: still nothing changes and nothing is announced.
+//
+//verif:tier thorough
+//verif:opts part0=8 part1=2
+func VerifC02_TwoStimuli() {
+	f, chid, check := verifTerminalFixture()
+	m := f.m
+	ctx := context.Background()
+	for i := 0; i < 2; i++ {
+		switch zz.Choice("stim", 9) {
+		case 0:
+			_ = m.OnDataReceived(chid, verifLink("link"), zz.Uint64("size"), zz.Int64("index"), zz.Bool("unique"))
+		case 1:
+			_, _ = m.OnDataQueued(chid, verifLink("link"), zz.Uint64("size"), zz.Int64("index"), zz.Bool("unique"))
+		case 2:
+			var err error
+			if zz.Bool("completeErr") {
+				err = zz.Error("cerr")
+			}
+			_ = m.OnChannelCompleted(chid, err)
+		case 3:
+			_ = m.OnResponseReceived(chid, verifArbitraryResponse("resp"))
+		case 4:
+			_ = m.RestartDataTransferChannel(ctx, chid)
+		case 5:
+			_ = m.CloseDataTransferChannel(ctx, chid)
+		case 6:
+			_ = m.PauseDataTransferChannel(ctx, chid)
+		case 7:
+			_ = m.OnRequestDisconnected(chid, zz.Error("e"))
+		case 8:
+			_ = m.SendVoucher(ctx, chid, datatransfer.TypedVoucher{Voucher: zz.Node("v"), Type: datatransfer.TypeIdentifier(zz.String("vt"))})
+		}
+		check("stimulus returned")
+	}
+}
